@@ -685,6 +685,8 @@ class Interp:
             except KeyError:
                 if name == "__class__":
                     return o.cls
+                if name == "__dict__":
+                    return o.fields
                 try:
                     ga = o.cls.lookup("__getattr__")
                 except KeyError:
